@@ -64,6 +64,12 @@ type StepC struct {
 	// open bulk connections leave; bcast / release / req with N > 1: that many times
 	N    int  `json:"n,omitempty"`
 	Hold bool `json:"hold,omitempty"`
+	// fault (connect with Auth wrong-password only; fault_test.go): the teamserver's write of the
+	// refusal fails - "cut": the fixture's connection wrapper lets FK more bytes through and fails
+	// every write after them; "reset": the peer writes the wrong login and a chat message in one
+	// segment and resets its socket at once
+	Fault string `json:"fault,omitempty"`
+	FK    int    `json:"fk,omitempty"`
 }
 
 type CaseC struct {
@@ -112,6 +118,8 @@ type mconn struct {
 	seq   int  // model time of its arrival
 	gone  int  // model time of its departure
 	bulk  bool // made by a bulk step
+	fault string // wrong-password only: the write of the refusal fails (cut | reset)
+	fk    int
 }
 
 type mpend struct {
@@ -314,6 +322,9 @@ func (m *modelC) connect(s StepC) *mconn {
 		c.auth = "silent"
 	}
 	m.conns = append(m.conns, c)
+	if c.auth == "wrong-password" && (s.Fault == "cut" || s.Fault == "reset") {
+		c.fault, c.fk = s.Fault, s.FK
+	}
 	if c.auth == "wrong-password" {
 		c.live = false // refused and closed by the server
 		c.gone = m.clock
@@ -543,6 +554,9 @@ func genC(t *rapid.T) CaseC {
 				s.K = "connect"
 				s.Auth = rapid.SampledFrom([]string{"login", "login", "silent", "wrong-password"}).Draw(t, "auth")
 				s.User = rapid.IntRange(0, nu-1).Draw(t, "user")
+				if s.Auth == "wrong-password" && rapid.Bool().Draw(t, "fault?") {
+					s.Fault, s.FK = genFaultC(t)
+				}
 			case "leave":
 				s.C = rapid.IntRange(0, 4).Draw(t, "c")
 				s.How = rapid.SampledFrom(leaveHows).Draw(t, "how")
@@ -631,6 +645,24 @@ func genC(t *rapid.T) CaseC {
 			}
 		}
 	}
+	// fault: in about one history in four ONE connection presents a wrong password while the
+	// teamserver's write of the refusal fails - early (the operators are there and would see
+	// whatever it caused) or late (among the newcomers) - and the history goes on
+	faultAt := ""
+	if faultShare(t, "fault?") {
+		faultAt = rapid.SampledFrom([]string{"early", "late"}).Draw(t, "fault-at")
+	}
+	faulty := func() {
+		s := srcOf("flt", []string{"fresh", "fresh", "reuse", "other-ip"})
+		s.K, s.Auth, s.User = "connect", "wrong-password", rapid.IntRange(0, nu-1).Draw(t, "flt-user")
+		s.Fault, s.FK = genFaultC(t)
+		add(s)
+		m.connect(s)
+		bcastMaybe("flt")
+	}
+	if faultAt == "early" {
+		faulty()
+	}
 	reqsMaybe("early")
 	releasePhase(0)
 	// the askers whose answers come later leave; others may
@@ -660,6 +692,9 @@ func genC(t *rapid.T) CaseC {
 		m.connect(s)
 		bcastMaybe("new")
 	}
+	if faultAt == "late" {
+		faulty()
+	}
 	reqsMaybe("late")
 	releasePhase(2)
 	if rapid.IntRange(0, 2).Draw(t, "tail?") == 0 {
@@ -675,6 +710,27 @@ func genC(t *rapid.T) CaseC {
 		}
 	}
 	return c
+}
+
+func genFaultC(t *rapid.T) (string, int) {
+	how := rapid.SampledFrom([]string{"cut", "cut", "reset"}).Draw(t, "fault-how")
+	k := 0
+	if how == "cut" && rapid.Bool().Draw(t, "fault-after-k") {
+		k = rapid.SampledFrom([]int{1, 2, 19, 20, 60, 120, 125, 126, 127, 128, 200, 4000}).Draw(t, "fault-k")
+	}
+	return how, k
+}
+
+func faultLabelC(how string, k int) string {
+	switch {
+	case how == "cut" && k == 0:
+		how = "fails-at-once"
+	case how == "cut":
+		how = "fails-after-k-bytes"
+	default:
+		how = "peer-reset"
+	}
+	return "fault:socket:write-answer:" + how + "@connect:wrong-password+pipelined-chat"
 }
 
 // ------------------------------------------------------------------ generator: scale
@@ -1165,6 +1221,9 @@ func (w *worldC) evaluate(rc *rconn) *core.Violation {
 	seen := map[string]int{}
 	for _, f := range rc.frames {
 		seen[f]++
+		if strings.HasPrefix(f, "chat/") && strings.Contains(f, "/"+refusedChat) {
+			return core.V("action|chat-by-refused-connection", "%s received %q: a chat message sent by a connection that presented a wrong password was dispatched; frames: %v", w.describe(rc), f, clip(rc.frames))
+		}
 		if !targeted(f) {
 			continue
 		}
@@ -1306,6 +1365,9 @@ func (w *worldC) open(mc *mconn, queue int) *core.Violation {
 			if u.Name == user {
 				pw = u.Password + "x"
 			}
+		}
+		if mc.fault != "" {
+			return w.refusedUnderFault(rc, user, pw, queue)
 		}
 		cl.SendJSON(wsx.LoginPkg(user, pw))
 		deadline := time.Now().Add(wsx.Watchdog)
@@ -1939,6 +2001,14 @@ func classifyC(c CaseC) core.Class {
 				}
 				lab["src:"+mc.src] = true
 				lab["conn:"+mc.auth] = true
+				if mc.fault != "" {
+					lab[faultLabelC(mc.fault, mc.fk)] = true
+					if m.authLive() > 0 {
+						lab["fault:refusal-cannot-be-written+while-operators-connected"] = true
+					}
+					fp["fault:"+mc.fault] = true
+					cl.NonTrivial = true
+				}
 				if mc.after {
 					lab["newcomer:"+mc.src+"+"+mc.auth] = true
 				}
@@ -2065,7 +2135,7 @@ func classifyC(c CaseC) core.Class {
 func TestC06c(t *testing.T) {
 	core.Run(t, core.Spec[CaseC]{
 		Property: "C06", Sub: "c",
-		Rule: "real Teamserver.Start() served on a harness listener, 2-3 operators, a third-party service registered over the real service websocket with one agent type, one Demon session. A history of connections to /havoc/: every connection binds its local address explicitly (net.Dialer.LocalAddr; linger 0 so that a departed address is free at once): a fresh 127.0.0.1 port, the exact ip:port of an earlier departed connection (SO_REUSEADDR), or another loopback ip 127.0.0.2-7 with the port of an earlier connection; it stays silent, presents a wrong password, or logs in as an operator; connections leave (reset / close frame / half-close). Authenticated operators start work that is answered later by client id: a payload build relayed to the service (the service's AgentBuild replies - progress message / payload - are sent by the ClientID it was given) and a BOF task with python-module callback (the agent's RAN_OK / COULD_NOT_RUN callback goes through PythonModuleCallback(ClientID)); each answer is released at a generated later point: while the asker is still connected, after it left, after it left and other connections came (planned histories aim at these points; 1 in 10 histories is an unplanned step sequence), interleaved with live console broadcasts. Claimed sender: every such request, and 0-2 requests per phase that HEAD answers at once with a reply directed to ONE client (Listener Add that must fail: existing name as Smb / External listener, Http with the proxy enabled and one of the five proxy fields missing; the same Listener Edit), carries a generated Head.User claim (never checked after login): the sender's own name, the empty string, the name of another connected operator, of a configured operator who is not connected, an unknown name, the own name in another letter case. Oracle: a connection that has not sent a message has received 0 bytes at every release, broadcast and at its departure; a refused one exactly one InitConnection/Error; an authenticated one receives a targeted answer iff it is the session that asked for it and is still connected (exactly once; a later session of the same operator may or may not), and every live broadcast issued while it was authenticated; whatever an authenticated operator sends and claims, an unauthenticated connection receives nothing; a directed reply must reach the sender when it named itself, may reach the sender or the AUTHENTICATED operator whose name was claimed otherwise (not judged by C06, counted: observed directed-reply-reached-...), and no third session; frame lists are complete (one-shot chat echo read before judging; service-side barrier after every service reply). Non-trivial: an answer is released after its asker left, or while an unauthenticated connection exists, or a request claims another sender than its own, or a directed reply is produced while an unauthenticated connection exists; distinct = (set of release points, set of kinds, unauthenticated present at a release, who holds an asker's address at a release, claim class (own / empty / other name) of deferred requests and of directed-reply requests, the latter with/without an unauthenticated connection present). SCALE (shape:scale, about 1 history in 85): ONE count of the history is drawn from the threshold-adjacent pool {63,64,65, 127,128,129, 255,256,257, 511,512,513, 999,1000,1001, 1023,1024,1025, ...} and that many connections / events are produced by the same real calls as in the small histories (every connection a real loopback websocket handled by handleRequest), in two parts (half+half, or all but one / two and the rest), with the ordinary steps (live broadcast, operator login, wrong password, silent connection from a reused / other-ip address, departure of an operator or of any connection, ask, release, directed-reply request with a claimed sender) before, between and after the parts, the first step after the bulk being one that is fanned out to operators: scale:open-silent = silent connections held open at once (pool cut at 1025 in the quick tier, 2049 thorough, and at what RLIMIT_NOFILE affords: two descriptors per connection, soft limit raised to the hard one in TestMain), scale:open-authenticated = operators logged in at once, each a different operator of an enlarged profile (cut at 129 quick / 257 thorough: every login is replayed all retained events, quadratic), scale:cycles-silent / cycles-refused / cycles-login = connect-disconnect cycles, i.e. client ids handed out: silent connections that leave, wrong-password logins that are refused (each exactly one error frame, closed, record removed), one operator logging in and leaving again and again (1025 / 1025 / 129 quick; 4097 / 4097 / 257 thorough), scale:broadcasts = live console broadcasts (4097 / 8193), scale:targeted-answers = progress messages of one payload build released by client id (1025 / 4097), scale:directed-replies = failing Listener Add/Edit requests (257 / 1025); in a third of the histories whose large count is not a number of open connections a second, moderate group of 63-129 silent connections is held open as well; afterwards many of the bulk connections may leave at once so that a threshold-adjacent number (0, 63-65, 127-129) stays, and the history goes on. The oracle is the same at every step (server-side byte counter of every silent connection = 0 after every broadcast, answer, reply and at its departure; complete frame lists of operators), evaluated in the same places; only the goroutine-dump wait for departed handlers is made once per bulk instead of once per connection. Labels scale:<count>:<bucket> (buckets 64-129, 255-513, 999-1025, 2047-4097, 8191+; client-table = silent + authenticated) and at-scale:<step>|table:<bucket> (an ordinary step made while the client table holds that many records); scale histories are non-trivial when such a step happens with an unauthenticated connection present or a count other than the number of operators is large, and add (count, bucket) and (step, bucket) to the fingerprint",
+		Rule: "real Teamserver.Start() served on a harness listener, 2-3 operators, a third-party service registered over the real service websocket with one agent type, one Demon session. A history of connections to /havoc/: every connection binds its local address explicitly (net.Dialer.LocalAddr; linger 0 so that a departed address is free at once): a fresh 127.0.0.1 port, the exact ip:port of an earlier departed connection (SO_REUSEADDR), or another loopback ip 127.0.0.2-7 with the port of an earlier connection; it stays silent, presents a wrong password, or logs in as an operator; connections leave (reset / close frame / half-close). Authenticated operators start work that is answered later by client id: a payload build relayed to the service (the service's AgentBuild replies - progress message / payload - are sent by the ClientID it was given) and a BOF task with python-module callback (the agent's RAN_OK / COULD_NOT_RUN callback goes through PythonModuleCallback(ClientID)); each answer is released at a generated later point: while the asker is still connected, after it left, after it left and other connections came (planned histories aim at these points; 1 in 10 histories is an unplanned step sequence), interleaved with live console broadcasts. Claimed sender: every such request, and 0-2 requests per phase that HEAD answers at once with a reply directed to ONE client (Listener Add that must fail: existing name as Smb / External listener, Http with the proxy enabled and one of the five proxy fields missing; the same Listener Edit), carries a generated Head.User claim (never checked after login): the sender's own name, the empty string, the name of another connected operator, of a configured operator who is not connected, an unknown name, the own name in another letter case. Oracle: a connection that has not sent a message has received 0 bytes at every release, broadcast and at its departure; a refused one exactly one InitConnection/Error; an authenticated one receives a targeted answer iff it is the session that asked for it and is still connected (exactly once; a later session of the same operator may or may not), and every live broadcast issued while it was authenticated; whatever an authenticated operator sends and claims, an unauthenticated connection receives nothing; a directed reply must reach the sender when it named itself, may reach the sender or the AUTHENTICATED operator whose name was claimed otherwise (not judged by C06, counted: observed directed-reply-reached-...), and no third session; frame lists are complete (one-shot chat echo read before judging; service-side barrier after every service reply). Non-trivial: an answer is released after its asker left, or while an unauthenticated connection exists, or a request claims another sender than its own, or a directed reply is produced while an unauthenticated connection exists; distinct = (set of release points, set of kinds, unauthenticated present at a release, who holds an asker's address at a release, claim class (own / empty / other name) of deferred requests and of directed-reply requests, the latter with/without an unauthenticated connection present). SCALE (shape:scale, about 1 history in 85): ONE count of the history is drawn from the threshold-adjacent pool {63,64,65, 127,128,129, 255,256,257, 511,512,513, 999,1000,1001, 1023,1024,1025, ...} and that many connections / events are produced by the same real calls as in the small histories (every connection a real loopback websocket handled by handleRequest), in two parts (half+half, or all but one / two and the rest), with the ordinary steps (live broadcast, operator login, wrong password, silent connection from a reused / other-ip address, departure of an operator or of any connection, ask, release, directed-reply request with a claimed sender) before, between and after the parts, the first step after the bulk being one that is fanned out to operators: scale:open-silent = silent connections held open at once (pool cut at 1025 in the quick tier, 2049 thorough, and at what RLIMIT_NOFILE affords: two descriptors per connection, soft limit raised to the hard one in TestMain), scale:open-authenticated = operators logged in at once, each a different operator of an enlarged profile (cut at 129 quick / 257 thorough: every login is replayed all retained events, quadratic), scale:cycles-silent / cycles-refused / cycles-login = connect-disconnect cycles, i.e. client ids handed out: silent connections that leave, wrong-password logins that are refused (each exactly one error frame, closed, record removed), one operator logging in and leaving again and again (1025 / 1025 / 129 quick; 4097 / 4097 / 257 thorough), scale:broadcasts = live console broadcasts (4097 / 8193), scale:targeted-answers = progress messages of one payload build released by client id (1025 / 4097), scale:directed-replies = failing Listener Add/Edit requests (257 / 1025); in a third of the histories whose large count is not a number of open connections a second, moderate group of 63-129 silent connections is held open as well; afterwards many of the bulk connections may leave at once so that a threshold-adjacent number (0, 63-65, 127-129) stays, and the history goes on. The oracle is the same at every step (server-side byte counter of every silent connection = 0 after every broadcast, answer, reply and at its departure; complete frame lists of operators), evaluated in the same places; only the goroutine-dump wait for departed handlers is made once per bulk instead of once per connection. Labels scale:<count>:<bucket> (buckets 64-129, 255-513, 999-1025, 2047-4097, 8191+; client-table = silent + authenticated) and at-scale:<step>|table:<bucket> (an ordinary step made while the client table holds that many records); scale histories are non-trivial when such a step happens with an unauthenticated connection present or a count other than the number of operators is large, and add (count, bucket) and (step, bucket) to the fingerprint. FAULT (wave 15; about one history in four; labels fault:socket:write-answer:fails-at-once|fails-after-k-bytes|peer-reset@connect:wrong-password+pipelined-chat, fault:refusal-cannot-be-written+while-operators-connected): ONE step of the history is a connection (fresh / reused / other-ip address) that presents a wrong password for an existing operator, with a chat message right behind it in the same segment, while the teamserver's write of the refusal fails - the connection wrapper fails its writes at once or after K bytes, or the peer resets its socket (linger 0) at once - placed early (the operators are connected) or among the late newcomers; then the history goes on (requests, releases, broadcasts, departures). Oracle unchanged: the connection's record never says authenticated, the server closes it and removes its record, it received at most its one error frame, and no operator's frame list - judged when it leaves - contains that chat message (action|chat-by-refused-connection); the fault step makes a history non-trivial",
 		Gen:  genC, Check: checkC, Classify: classifyC,
 		Assumptions: []string{
 			"one session per operator at a time: a generated login for an operator who is online stays a silent connection (the teamserver resolves the asking session by user name)",
